@@ -85,5 +85,7 @@ Emit ==
       JKV("ac", JArr([i \in 1..n |-> JIntSeq([j \in 1..n |-> IF i # j /\ Bonded(p[i], p[j]) THEN 1 ELSE 0])])),
       JKV("heavy", JIntSeq([i \in 1..NHeavy |-> HeavyEls[el[i]]])),
       JKV("orders", JSetArr({ JIntSeq(<<CHOOSE x \in b : \A y \in b : x <= y, CHOOSE x \in b : \A y \in b : x >= y, bo[b]>>) : b \in DOMAIN bo })),
+      \* TRUE when the construction uses the LOWEST standard valence of every atom: then no hypervalent structure is needed
+      JKV("lowest", JBool(\A a \in 1..NHeavy : \A v \in Std(HeavyEls[el[a]]) : tv[a] <= v)),
       JKV("perm", JInt(pk)) >>))
 =============================================================================
